@@ -573,3 +573,69 @@ pub fn describe_resolved(r: &ResolvedType) -> String {
         ResolvedType::Unresolved(p) => format!("unresolved {p}"),
     }
 }
+
+// ------------------------------------------------------------------------------------------------
+// Reference structs: the API model printed as hand-rule yaserde structs (correct prefixes, a
+// namespaces map covering every namespace of the schema set, unprefixed attributes). They serve
+// the exclusion rule of C04: a shape is excluded only if the identical check fails on them too.
+
+fn ref_field_type(ty: &ExpTy, model: &RefModel, mod_of: &dyn Fn(&str) -> String) -> String {
+    match ty {
+        ExpTy::Builtin(r, _) => r.clone(),
+        ExpTy::Named(ns, l) => format!("super::{}::R{}", mod_of(ns), norm_ident(l)),
+        ExpTy::ElemRef(ns, l) => {
+            let t = model.comps.iter().find(|c| c.ns == *ns && c.name == *l && matches!(c.kind, CompKind::AnonElement | CompKind::TypedElement));
+            match t {
+                Some(t) if t.kind == CompKind::TypedElement => match &t.alias_of {
+                    Some(a) => ref_field_type(a, model, mod_of),
+                    None => "String".into(),
+                },
+                _ => format!("super::{}::R{}", mod_of(ns), norm_ident(l)),
+            }
+        }
+        ExpTy::Unresolvable(_) => "String".into(),
+    }
+}
+
+fn norm_ident(s: &str) -> String {
+    s.chars().map(|c| if c.is_ascii_alphanumeric() { c } else { '_' }).collect()
+}
+
+pub fn print_reference_structs(model: &RefModel) -> String {
+    let nss = &model.namespaces;
+    let mod_of = |ns: &str| format!("rn{}", nss.iter().position(|n| n == ns).unwrap_or(0));
+    let prefix_of = |ns: &str| format!("n{}", nss.iter().position(|n| n == ns).unwrap_or(0));
+    let ns_map: String = nss.iter().map(|n| format!("{:?} = {:?}", prefix_of(n), n)).collect::<Vec<_>>().join(", ");
+    let mut out = String::new();
+    for ns in nss {
+        out.push_str(&format!("pub mod {} {{\n    use yaserde_derive::{{YaDeserialize, YaSerialize}};\n", mod_of(ns)));
+        for c in model.comps.iter().filter(|c| c.ns == *ns) {
+            if c.kind == CompKind::TypedElement {
+                continue;
+            }
+            out.push_str("    #[derive(Debug, Default, YaSerialize, YaDeserialize)]\n");
+            out.push_str(&format!("    #[yaserde(prefix = {:?}, namespaces = {{{ns_map}}}, rename = {:?})]\n", prefix_of(ns), c.name));
+            out.push_str(&format!("    pub struct R{} {{\n", norm_ident(&c.name)));
+            if c.kind == CompKind::Simple {
+                out.push_str("        #[yaserde(text = true)]\n        pub value: String,\n");
+            }
+            for (i, m) in c.members.iter().enumerate() {
+                let t = ref_field_type(&m.ty, model, &mod_of);
+                let t = match m.wrapper {
+                    Wrapper::Bare => t,
+                    Wrapper::Option => format!("Option<{t}>"),
+                    Wrapper::Vec => format!("Vec<{t}>"),
+                };
+                if m.is_attr {
+                    out.push_str(&format!("        #[yaserde(rename = {:?}, attribute = true)]\n", m.wire));
+                } else {
+                    out.push_str(&format!("        #[yaserde(prefix = {:?}, rename = {:?})]\n", prefix_of(m.ns.as_deref().unwrap_or(ns)), m.wire));
+                }
+                out.push_str(&format!("        pub f{i}: {t},\n"));
+            }
+            out.push_str("    }\n");
+        }
+        out.push_str("}\n");
+    }
+    out
+}
